@@ -292,5 +292,11 @@ Definition loud (fk : fkind) (k : fault) : bool :=
   | FtTransport | FtStatusEmpty | FtStatusText | FtStatusErrors | FtEmpty | FtNonJSON | FtTruncated | FtNaNBody
   | FtErrorsNoData | FtErrorsNullData | FtNullData | FtNaNData => true
   | FtCountLess | FtCountMore => match fk with FSingle => false | _ => true end
+  (* the selected data path of an entity / batch entity fetch holds an explicit null, a value of the
+     wrong kind or nothing (`_entities`: null / {} / "x", `data`: {} / "x" / 1 / []), with or without
+     an errors entry, at status 200 or 500: never the benign "no entity found" (isEmptyEntityFetch
+     needs a real list).  For a root fetch `data: {..}` is an ordinary answer; `data` of the wrong kind
+     and `_entities` items of the wrong kind make MergeValues fail (c07_wrong_kind_aborts_refuted). *)
+  | FtShape _ _ _ => match fk with FSingle => false | _ => true end
   | _ => false
   end.
